@@ -28,6 +28,7 @@ XS ::= SET { a [0] INTEGER, ... }
 XC ::= CHOICE { a [0] INTEGER, ... }
 A ::= ANY
 W ::= SEQUENCE { a INTEGER, any ANY OPTIONAL }
+PX ::= SEQUENCE { id INTEGER (0..255), ..., blob OCTET STRING }
 END
 """
 STACK = 256 * 1024      # thread stack: far above the 30000-byte default limit, far below unbounded recursion
@@ -104,6 +105,50 @@ def bomb_inputs():
     return out
 
 
+def bulk_inputs():
+    """honest large payloads: every input byte is data, so the heap held must stay within a small multiple of the input
+    (family 'bulk*': bound 64 KiB + 16 bytes per input byte)"""
+    from ..asn import uper as U
+    out = []
+    n = 200000
+    data = bytes((i * 7 + 3) & 0xff for i in range(n))
+
+    def blen(k):
+        return bytes([k]) if k < 128 else bytes([0x80 | ((k.bit_length() + 7) // 8)]) + k.to_bytes((k.bit_length() + 7) // 8, "big")
+    out.append(("O", "BER", "bulk-primitive", 0, b"\x04" + blen(n) + data))
+    seg = b"".join(b"\x04" + blen(1000) + data[i:i + 1000] for i in range(0, n, 1000))
+    out.append(("O", "BER", "bulk-segments", 0, b"\x24" + blen(len(seg)) + seg))
+    out.append(("O", "BER", "bulk-segments-indefinite", 0, b"\x24\x80" + seg + b"\0\0"))
+    out.append(("U", "BER", "bulk-primitive", 0, b"\x0c" + blen(n) + bytes(0x41 + (i % 26) for i in range(n))))
+    out.append(("O", "OER", "bulk", 0, blen(n) + data))
+    out.append(("O", "BXER", "bulk", 0, b"<O>" + data.hex().upper().encode() + b"</O>"))
+    b = U.Bits()
+    U.put_fragmented(b, n, lambda bb, st, c: bb.put_bytes(data[st:st + c]))
+    out.append(("O", "UPER", "bulk-fragments", 0, b.tobytes()))
+    # an extension addition (open type) whose body is cut into k fragments of 16K plus a tail; the body itself is the
+    # complete encoding of the OCTET STRING (canonically fragmented inside)
+    for k in (2, 4, 7):
+        inner = U.Bits()
+        blob = data[:k * 16384 - 40] if k * 16384 - 40 <= n else data + data[:k * 16384 - 40 - n]
+        U.put_fragmented(inner, len(blob), lambda bb, st, c: bb.put_bytes(blob[st:st + c]))
+        body = inner.tobytes()
+        assert len(body) // 16384 == k - 1 or len(body) // 16384 == k, (k, len(body))
+        b = U.Bits()
+        b.put(1, 1); b.put(7, 8)            # extension bit, id
+        b.put(0, 7)                         # one addition (normally small length 0)
+        b.put(1, 1)                         # ... which is present
+        pos = 0
+        while len(body) - pos >= 16384:     # finest legal fragmentation: 16K at a time
+            b.put(0xC1, 8); b.put_bytes(body[pos:pos + 16384]); pos += 16384
+        U.put_length(b, len(body) - pos); b.put_bytes(body[pos:])
+        out.append(("PX", "UPER", "bulk-open-type-16K-fragments", k, b.tobytes()))
+        b = U.Bits()
+        b.put(1, 1); b.put(7, 8); b.put(0, 7); b.put(1, 1)
+        U.put_fragmented(b, len(body), lambda bb, st, c: bb.put_bytes(body[st:st + c]))
+        out.append(("PX", "UPER", "bulk-open-type", k, b.tobytes()))
+    return out
+
+
 def run(tier, seed):
     chk = core.Check("C15", tier, seed)
     quick = tier == "quick"
@@ -121,7 +166,7 @@ def run(tier, seed):
     with open(path, "w") as f:
         f.write(MODULE)
     depths = [10, 100, 1000, 10000, 100000] + ([] if quick else [1000000])
-    inputs = deep_inputs(depths) + bomb_inputs()
+    inputs = deep_inputs(depths) + bomb_inputs() + bulk_inputs()
     limits = [-1, 2000, 10000, 100000]
     for variant in ("plain", "asan"):
         try:
@@ -183,7 +228,11 @@ def run(tier, seed):
                 chk.violation({"symptom": "illegal-rc", "syntax": syn}, "rc %s" % e.get("rc"), replay)
             peak = int(e.get("peak", 0) or 0)
             maxreq = int(e.get("maxreq", 0) or 0)
-            bound = 64 * 1024 + 8 * 1024 * len(x)
+            bound = 64 * 1024 + (16 if fam.startswith("bulk") else 8 * 1024) * len(x)
+            if fam.startswith("bulk"):
+                if e.get("rc") != "OK":
+                    chk.inconcl("bulk payload not decoded (%s %s %s): %s" % (pdu, syn, fam, e.get("rc")))
+                chk.count("bulk_peak_per_input_byte_x100:%s:%s:%s" % (pdu, syn, fam), int(100 * peak / max(1, len(x))))
             if peak > bound:
                 chk.violation({"symptom": "heap-bomb", "pdu": pdu, "syntax": syn, "family": fam},
                               "%s %s %s: decoder held %d bytes of heap while processing %d input bytes (bound %d), rc=%s" % (
